@@ -131,7 +131,7 @@ func (jit *JITCompiler) CompileRoute(name string, route *ast.Route) ([]byte, err
 
 		// Check if we should recompile to a higher tier
 		if jit.shouldRecompile(unit) {
-			return jit.recompileRoute(name, route, unit.Tier)
+			return jit.recompileRoute(name, route, unit.Tier, epoch)
 		}
 
 		return unit.Bytecode, nil
@@ -257,9 +257,10 @@ func (jit *JITCompiler) shouldRecompile(unit CompilationUnit) bool {
 }
 
 // recompileRoute recompiles a route to a higher optimization tier
-func (jit *JITCompiler) recompileRoute(name string, route *ast.Route, currentTier OptimizationTier) ([]byte, error) {
+// epoch is the invalidation count the caller read before it looked the unit up:
+// the route definition it passes belongs to that epoch.
+func (jit *JITCompiler) recompileRoute(name string, route *ast.Route, currentTier OptimizationTier, epoch uint64) ([]byte, error) {
 	startTime := time.Now()
-	epoch := jit.currentEpoch()
 
 	// Determine next tier
 	nextTier := jit.getNextTier(currentTier)
@@ -475,6 +476,7 @@ func (jit *JITCompiler) CompileRouteWithTypes(name string, route *ast.Route, typ
 
 // CheckAdaptiveRecompilation checks if a route should be recompiled based on profiling
 func (jit *JITCompiler) CheckAdaptiveRecompilation(name string, route *ast.Route) (bool, error) {
+	epoch := jit.currentEpoch()
 	unit, exists := jit.snapshotUnit(name)
 
 	if !exists {
@@ -487,7 +489,7 @@ func (jit *JITCompiler) CheckAdaptiveRecompilation(name string, route *ast.Route
 	}
 
 	// Recompile with the next tier
-	bytecode, err := jit.recompileRoute(name, route, unit.Tier)
+	bytecode, err := jit.recompileRoute(name, route, unit.Tier, epoch)
 	if err != nil {
 		return false, err
 	}
